@@ -19,6 +19,9 @@ class RealWorld(S.SWorld):
         super().__init__(loop)
         self.t0 = loop.time()
 
+    def enabled_env(self):
+        return []
+
     def observe(self):
         self.adopt_expected()
         full = S.SWorld.observe_base(self)
@@ -58,9 +61,10 @@ async def settle(n: int = 8):
         await asyncio.sleep(0)
 
 
-async def coordinator(ops: list[int], out: dict):
+async def coordinator(ops, out: dict, chooser=None, nsteps: int = 0):
     loop = asyncio.get_running_loop()
     w = RealWorld(loop)
+    w.pending_start = set()
     out["world"] = w
     pending: set[int] = set()
     skipped = 0
@@ -80,6 +84,7 @@ async def coordinator(ops: list[int], out: dict):
                 st = w.status_after(p)
                 if st is None or st[0] != "blocked":
                     pending.discard(t)
+                    w.pending_start.discard(t)
                     record(S.RUNWAKE, t, 0, 0, st)
             # cancellations delivered to programs sitting between two operations
             for t, p in list(w.puppets.items()):
@@ -88,8 +93,18 @@ async def coordinator(ops: list[int], out: dict):
                     if p.outcome is not None and p.outcome[0] == "exc":
                         record(S.RUNWAKE, t, 0, 0, p.outcome)
 
-        for i in range(0, len(ops), 4):
-            c, a, b, d = ops[i:i + 4]
+        def op_stream():
+            if chooser is None:
+                for i in range(0, len(ops), 4):
+                    yield tuple(ops[i:i + 4])
+            else:
+                for _ in range(nsteps):
+                    o = chooser(w)
+                    if o is None:
+                        return
+                    yield o
+
+        for (c, a, b, d) in op_stream():
             if c < 30:
                 p = w.puppets.get(a)
                 if p is None or not p.at_decision or p.cmdfut.done() or a in pending:
@@ -128,6 +143,8 @@ async def coordinator(ops: list[int], out: dict):
                 record(c, a, b, d, st)
                 if st is not None and st[0] == "blocked":
                     pending.add(a)
+                    if c == S.START:
+                        w.pending_start.add(a)
                 await completions()
             elif c == S.NEWROOT:
                 t = w.next_tid()
@@ -161,6 +178,7 @@ async def coordinator(ops: list[int], out: dict):
         out["skipped"] = skipped
         out["still_pending"] = sorted(pending)
     finally:
+        w.shutdown = True
         for p in w.puppets.values():
             tk = p.task or getattr(p, "pre_task", None)
             if tk is not None and not tk.done():
@@ -174,14 +192,15 @@ async def coordinator(ops: list[int], out: dict):
         w._unpatch()
 
 
-def real_run(ops: list[int], config: str, timeout: float = 20.0):
-    """Runs the program of a stored case on a real loop; returns the RealWorld (ops/outs/step_lens filled)."""
+def real_run(ops, config: str, timeout: float = 20.0, chooser=None, nsteps: int = 0):
+    """Runs a program on a real loop; returns the RealWorld (ops/outs/step_lens filled).  Either replays the
+    program ops of a stored case, or (chooser given) generates the program online from the real state."""
     import anyio
     out: dict = {}
 
     async def main():
         try:
-            await asyncio.wait_for(coordinator(ops, out), timeout)
+            await asyncio.wait_for(coordinator(ops, out, chooser, nsteps), timeout)
         except asyncio.TimeoutError:
             out["timeout"] = True
 
@@ -204,3 +223,22 @@ def real_run(ops: list[int], config: str, timeout: float = 20.0):
         w.info = {k: v for k, v in out.items() if k != "world"}
         w.info["loop_exc"] = loop_exc
     return w
+
+
+def real_random_run(rng, nsteps: int, prof, config: str):
+    """Online random program on a real loop (the loop schedules wake-ups, deliveries and callbacks by itself)."""
+    import sgen
+
+    class NoEnv:
+        pass
+
+    def chooser(w):
+        cands = [(wt, op) for (wt, op) in sgen.propose(w, rng, prof)
+                 if op[0] < 30 or op[0] in (S.NEWROOT, S.NATIVECANCEL, S.EXTCANCEL)]
+        cands = [(wt, op) for (wt, op) in cands if op[0] not in (S.FAILAT, S.SETDEADLINE)
+                 and not (op[0] == S.NATIVECANCEL and op[1] in w.pending_start)]
+        if not cands:
+            return None
+        return rng.choices([c[1] for c in cands], [c[0] for c in cands])[0]
+
+    return real_run([S.NEWROOT, 0, 0, 0], config, timeout=30.0, chooser=chooser, nsteps=nsteps)
